@@ -103,6 +103,12 @@ impl Rng {
         v
     }
 
+    /// Random bytes of a random length in lo..=hi.
+    pub fn bytes_between(&mut self, lo: usize, hi: usize) -> Vec<u8> {
+        let n = self.range(lo as u64, hi as u64) as usize;
+        self.bytes(n)
+    }
+
     pub fn shuffle<T>(&mut self, xs: &mut [T]) {
         for i in (1..xs.len()).rev() {
             let j = self.usize_below(i + 1);
